@@ -177,6 +177,28 @@ def spec_read_rst7(text):
     return out
 
 
+def spec_read_pdb(text):
+    """wwPDB format v3.3: CRYST1 cols 7-15, 16-24, 25-33 (a, b, c), 34-40, 41-47, 48-54 (alpha, beta, gamma); MODEL cols 11-14; ATOM/HETATM: serial 7-11, name 13-16,
+    resName 18-20, chainID 22, resSeq 23-26, x 31-38, y 39-46, z 47-54, occupancy 55-60, tempFactor 61-66, element 77-78"""
+    cryst, models, cur = [], [], None
+    for ln in text.split("\n"):
+        rec = ln[:6]
+        if rec == "CRYST1":
+            cryst.append({"lengths": [term(ln[6:15]), term(ln[15:24]), term(ln[24:33])], "angles": [term(ln[33:40]), term(ln[40:47]), term(ln[47:54])]})
+        elif rec == "MODEL ":
+            cur = {"index": int(ln[10:14]), "atoms": []}
+            models.append(cur)
+        elif rec in ("ATOM  ", "HETATM"):
+            if cur is None:
+                cur = {"index": None, "atoms": []}
+                models.append(cur)
+            cur["atoms"].append({"serial": int(ln[6:11]), "name": ln[12:16].strip(), "resName": ln[17:20].strip(), "chain": ln[21], "resSeq": int(ln[22:26]),
+                                 "xyz": [term(ln[30:38]), term(ln[38:46]), term(ln[46:54])], "element": ln[76:78].strip(), "width": len(ln)})
+        elif rec == "ENDMDL":
+            cur = None
+    return {"cryst": cryst, "models": models}
+
+
 # ------------------------------------------------------------------ the obligations
 
 def _eq(G, name, prem, got, want, inputs, tol=None):
@@ -214,7 +236,7 @@ def writer(fmt: str = "gro", cell: str = "tri", n_atoms: int = 3, strict_box: bo
     if Lh is not None:
         inputs.update({f"L{f}_{k}": Lh[f, k] for f in range(F) for k in range(3)})
     modname, clsname = {"gro": ("mdtraj.formats.gro", "GroTrajectoryFile"), "mdcrd": ("mdtraj.formats.mdcrd", "MDCRDTrajectoryFile"), "xyz": ("mdtraj.formats.xyzfile", "XYZTrajectoryFile"),
-                        "lammpstrj": ("mdtraj.formats.lammpstrj", "LAMMPSTrajectoryFile"), "rst7": ("mdtraj.formats.amberrst", "AmberRestartFile")}[fmt]
+                        "lammpstrj": ("mdtraj.formats.lammpstrj", "LAMMPSTrajectoryFile"), "rst7": ("mdtraj.formats.amberrst", "AmberRestartFile"), "pdb": ("mdtraj.formats.pdb.pdbfile", "PDBTrajectoryFile")}[fmt]
     mod = importlib.import_module(modname)
     Cls = getattr(mod, clsname)
     mod.ensure_type = _ensure
@@ -253,6 +275,14 @@ def writer(fmt: str = "gro", cell: str = "tri", n_atoms: int = 3, strict_box: bo
         elif fmt == "lammpstrj":
             ang = np.array([ANG] * F)
             w.write(X, Lh, ang)
+        elif fmt == "pdb":
+            w._header_written = False
+            w._footer_written = False
+            for f in range(F):
+                if Lh is not None:
+                    w.write(X[f], top, modelIndex=f, unitcell_lengths=Lh[f], unitcell_angles=np.array(ANG))
+                else:
+                    w.write(X[f], top, modelIndex=f)
         else:
             w.write(X, time=T, cell_lengths=Lh, cell_angles=None if Lh is None else np.array([ANG]))
         return sink.getvalue()
@@ -280,6 +310,9 @@ def writer(fmt: str = "gro", cell: str = "tri", n_atoms: int = 3, strict_box: bo
                 frs = spec_read_xyz(text)
             elif fmt == "lammpstrj":
                 frs = spec_read_lammpstrj(text)
+            elif fmt == "pdb":
+                pdb = spec_read_pdb(text)
+                frs = [{"xyz": [a["xyz"] for a in m["atoms"]], "model": m} for m in pdb["models"]]
             else:
                 frs = [spec_read_rst7(text)]
         except Exception as e:
@@ -324,6 +357,21 @@ def writer(fmt: str = "gro", cell: str = "tri", n_atoms: int = 3, strict_box: bo
                             _eq(G, f"{tag}box[f{f}.{r}{c}]", prem, fr["box"][r][c], box[f, r, c], inputs, tol)
             if fmt == "lammpstrj":
                 _lammps_goals(G, tag, f, fr, prem, X, Lh, ANG, N, inputs)
+            if fmt == "pdb":
+                m = fr["model"]
+                atoms = list(top.atoms)
+                G.add(f"{tag}model_index[f{f}]", prem, z3.BoolVal(m["index"] == f), inputs)
+                G.add(f"{tag}atom_records[f{f}]", prem, z3.BoolVal(all(a["width"] == 80 and a["name"] == atoms[i].name and a["resName"] == atoms[i].residue.name and a["resSeq"] == atoms[i].residue.resSeq
+                                                                        and a["serial"] == atoms[i].serial and a["element"].upper() == atoms[i].element.symbol.upper() for i, a in enumerate(m["atoms"]))), inputs)
+                if f == 0:
+                    if cell == "none":
+                        G.add(f"{tag}no_cryst1", prem, z3.BoolVal(len(pdb["cryst"]) == 0), inputs)
+                    else:
+                        G.add(f"{tag}one_cryst1", prem, z3.BoolVal(len(pdb["cryst"]) == 1), inputs)
+                        if len(pdb["cryst"]) == 1:
+                            for k in range(3):
+                                _eq(G, f"{tag}cryst1.length[{k}]", prem, pdb["cryst"][0]["lengths"][k], Lh[0, k], inputs)
+                                _eq(G, f"{tag}cryst1.angle[{k}]", prem, pdb["cryst"][0]["angles"][k], S.rat(ANG[k]), inputs)
         # mdtraj's own reader must extract the same tokens at the same places
         try:
             back = _own_reader(fmt, text, N, top, cell)
@@ -344,6 +392,10 @@ def writer(fmt: str = "gro", cell: str = "tri", n_atoms: int = 3, strict_box: bo
                 for r in range(3):
                     for c in range(3):
                         _eq(G, f"{tag}own_reader.box[f{f}.{r}{c}]", prem, term(back["box"][f, r, c]), box[f, r, c], inputs, tol)
+            if cell != "none" and fmt == "pdb" and f == 0:
+                for k in range(3):
+                    _eq(G, f"{tag}own_reader.cryst1.length[{k}]", prem, None if back["pdb_lengths"] is None else term(back["pdb_lengths"][k]), Lh[0, k], inputs)
+                    _eq(G, f"{tag}own_reader.cryst1.angle[{k}]", prem, None if back["pdb_angles"] is None else term(back["pdb_angles"][k]), S.rat(ANG[k]), inputs)
     r = G.run(rep)
     r["paths"] = len(paths)
     r["tokens"] = len(TOK)
@@ -408,7 +460,7 @@ def _own_reader(fmt, text, N, top, cell):
     import shutil
     import tempfile
     modname, clsname, ext = {"gro": ("mdtraj.formats.gro", "GroTrajectoryFile", "gro"), "mdcrd": ("mdtraj.formats.mdcrd", "MDCRDTrajectoryFile", "mdcrd"), "xyz": ("mdtraj.formats.xyzfile", "XYZTrajectoryFile", "xyz"),
-                             "lammpstrj": ("mdtraj.formats.lammpstrj", "LAMMPSTrajectoryFile", "lammpstrj"), "rst7": ("mdtraj.formats.amberrst", "AmberRestartFile", "rst7")}[fmt]
+                             "lammpstrj": ("mdtraj.formats.lammpstrj", "LAMMPSTrajectoryFile", "lammpstrj"), "rst7": ("mdtraj.formats.amberrst", "AmberRestartFile", "rst7"), "pdb": ("mdtraj.formats.pdb.pdbfile", "PDBTrajectoryFile", "pdb")}[fmt]
     mod = importlib.reload(importlib.import_module(modname))          # undo the symbolic stubs (ensure_type, np) for the concrete read
     C = getattr(mod, clsname)
     d = tempfile.mkdtemp(prefix="c01t_")
@@ -416,6 +468,9 @@ def _own_reader(fmt, text, N, top, cell):
     try:
         with builtins.open(p, "w") as fh:
             fh.write(text)
+        if fmt == "pdb":
+            with C(p) as f:
+                return {"xyz": np.asarray(f.positions), "pdb_lengths": f.unitcell_lengths, "pdb_angles": f.unitcell_angles}
         with (C(p, n_atoms=N) if fmt == "mdcrd" else C(p)) as f:
             out = f.read()
     finally:
@@ -453,6 +508,7 @@ times = np.array([vals.get("t%%d" %% f) if vals.get("t%%d" %% f) is not None els
 ANG = {"ortho": [90.0, 90.0, 90.0], "tri": [80.0, 100.0, 70.0], "none": None}[cell]
 L = None if cell == "none" else np.array([[vals.get("L%%d_%%d" %% (f, k)) or (2.0 + 0.5 * k + 0.25 * f) for k in range(3)] for f in range(F)])
 if L is not None: L = np.maximum(L, np.abs(xyz).max() * 0 + 1.0)
+if L is not None and fmt == "pdb": L[:] = L[0]                      # (a PDB file holds one CRYST1 record)
 t = md.Trajectory((xyz / 10).astype(np.float32) if fmt != "gro" else xyz.astype(np.float32), top, time=times)      # native angstrom -> nm for the API (gro is nm)
 if L is not None:
     t.unitcell_lengths = L / (10 if fmt != "gro" else 1); t.unitcell_angles = np.array([ANG] * F)
@@ -492,6 +548,23 @@ try:
                 a, b, c = (rows[k][1] - rows[k][0] for k in range(3)); ang = [90.0] * 3
             if not np.allclose([a, b, c], L[f], rtol=1e-4) or not np.allclose(ang, ANG, atol=1e-2): bad.append("frame %%d: a LAMMPS-convention reading of the box gives %%s %%s, the cell is %%s %%s" %% (f, [a, b, c], list(ang), L[f].tolist(), ANG))
             i += 9 + N
+    elif fmt == "pdb":
+        cr = [l for l in lines if l.startswith("CRYST1")]
+        if L is None:
+            if cr: bad.append("CRYST1 written for a trajectory without cell")
+        elif len(cr) != 1: bad.append("%%d CRYST1 records" %% len(cr))
+        else:
+            got = [float(cr[0][6:15]), float(cr[0][15:24]), float(cr[0][24:33]), float(cr[0][33:40]), float(cr[0][40:47]), float(cr[0][47:54])]
+            if not np.allclose(got[:3], L[0], atol=2e-3) or not np.allclose(got[3:], ANG, atol=1e-2): bad.append("CRYST1 reads %%s, the cell is %%s %%s" %% (got, L[0].tolist(), ANG))
+        at = [l for l in lines if l.startswith(("ATOM  ", "HETATM"))]
+        if len(at) != F * N: bad.append("%%d atom records for %%d models x %%d atoms" %% (len(at), F, N))
+        else:
+            for k, l in enumerate(at):
+                got = [float(l[30:38]), float(l[38:46]), float(l[46:54])]
+                if not np.allclose(got, nat[k // N, k %% N], atol=1.1e-3): bad.append("atom record %%d: %%s vs %%s" %% (k, got, nat[k // N, k %% N].tolist()))
+        back = md.load(p)
+        if not np.allclose(back.xyz, t.xyz, atol=2e-4): bad.append("coordinates differ after save/load")
+        if L is not None and (back.unitcell_angles is None or not np.allclose(back.unitcell_angles[0], ANG, atol=1e-2) or not np.allclose(back.unitcell_lengths[0], t.unitcell_lengths[0], atol=2e-4)): bad.append("cell differs after save/load")
     elif fmt == "mdcrd" and strict:
         per = (3 * N + 9) // 10
         rec = lines[1 + per]
